@@ -163,7 +163,7 @@ def complex_add(document, cls, tags):
         if extends.Attributes.exc_interface:
             # If the parent class is private, it won't be in the schema, so we
             # need to act as if its attributes are part of cls as well.
-            type_info = cls.get_simple_type_info(cls)
+            type_info = cls.get_flat_type_info(cls)
 
         else:
             complex_content = etree.SubElement(complex_type,
